@@ -106,6 +106,7 @@ func point() {
 	if !Quiet {
 		vsched.Point()
 	}
+	vsched.Progress()
 }
 
 func clean(p string) string { return filepath.Clean(p) }
